@@ -147,7 +147,7 @@ func (f *FieldCopyToGenerator) genZeroValue(fieldName string) func(*j.Group) {
 			if f.ParentIsOptionalEmbed && f.OneOfName == "" {
 				// The field is promoted from a nullable embedded message: it can be read only when the
 				// embedded pointer is set, otherwise the attribute is null.
-				isZero = j.Id("obj." + f.ParentIsOptionalEmbedFieldName).Op("==").Nil().Op("||").Add(isZero)
+				isZero = j.Id(f.OptionalEmbedCond("==", "||")).Op("||").Add(isZero)
 			}
 			g.Id("v.Null").Op("=").Add(isZero)
 		} else {
@@ -164,7 +164,7 @@ func (f *FieldCopyToGenerator) genPrimitiveBody(fieldName string, g *j.Group) {
 	if !f.IsPlaceholder {
 		// (a oneof branch has been read through the oneof stub, which takes care of the embedded message)
 		if f.ParentIsOptionalEmbed && f.OneOfName == "" {
-			g.If(j.Id("obj." + f.ParentIsOptionalEmbedFieldName).Op("==").Nil()).Block(
+			g.If(j.Id(f.OptionalEmbedCond("==", "||"))).Block(
 				j.Id("v.Null").Op("=").True(),
 			).Else().Block(f.genAssignValue(fieldName))
 		} else {
@@ -268,7 +268,7 @@ func (f *FieldCopyToGenerator) genEmbeddedSource(g *j.Group) string {
 		return "obj." + f.Name
 	}
 	g.Var().Id("src").Id(f.i.WithType(f.GoType))
-	g.If(j.Id("obj." + f.ParentIsOptionalEmbedFieldName).Op("!=").Nil()).Block(
+	g.If(j.Id(f.OptionalEmbedCond("!=", "&&"))).Block(
 		j.Id("src").Op("=").Id("obj." + f.Name),
 	)
 	return "src"
@@ -299,7 +299,7 @@ func (f *FieldCopyToGenerator) genOneOfStub(g *j.Group) {
 	if f.ParentIsOptionalEmbed {
 		// the oneof is promoted from a nullable embedded message: it is unset when the message is
 		g.Var().Id("oneOf").Interface()
-		g.If(j.Id("obj." + f.ParentIsOptionalEmbedFieldName).Op("!=").Nil()).Block(
+		g.If(j.Id(f.OptionalEmbedCond("!=", "&&"))).Block(
 			j.Id("oneOf").Op("=").Id("obj." + f.OneOfName),
 		)
 		g.List(j.Id("obj"), j.Id("ok")).Op(":=").Id("oneOf").Assert(j.Id("*" + f.i.WithType(f.OneOfType)))
